@@ -1,5 +1,6 @@
 """C02 — Outcome does not depend on context factory or worker threads (DESIGN.md 3, C02): the hand-off structure."""
 from .. import cg, ex, lib
+from ..cfg import LOG_MACROS
 from ..core import where, EXCLUDED_UNITS
 from ..ir import AnalysisBroken, REPO
 
@@ -206,6 +207,8 @@ def run(ctx):
         if f_rel.startswith(('src/kernel/context/', 'include/simgrid/kernel/context/')) or f_rel.endswith('xbt/parmap.hpp') or not fn.get('elems'):
             continue
         for el in fn['elems']:
+            if el.get('m') in LOG_MACROS:
+                continue        # a value printed by a log line decides nothing
             written = set(id(n['a'][0]) for n in ex.walk(el['x']) if n.get('k') == 'Bin' and n.get('op') == '=' and n.get('a'))     # configuration setters write, they do not read
             for n in ex.walk(el['x']):
                 q = None
